@@ -60,7 +60,7 @@ pub struct SearchCfg {
     pub depth: usize,
 }
 
-fn params_fft64() -> Params {
+pub fn params_fft64() -> Params {
     Params {
         name: "fft64-n16-b19".into(),
         n: 16,
@@ -78,7 +78,7 @@ fn params_fft64() -> Params {
     }
 }
 
-fn params_ntt120(f128: bool) -> Params {
+pub fn params_ntt120(f128: bool) -> Params {
     if f128 {
         Params {
             name: "ntt120-n16-b52-f128".into(),
@@ -114,7 +114,7 @@ fn params_ntt120(f128: bool) -> Params {
     }
 }
 
-fn inits() -> Vec<Vec<Action>> {
+pub fn inits() -> Vec<Vec<Action>> {
     vec![
         vec![
             Action::Encrypt { dst: 0, start: 0, vec: 0 },
@@ -128,7 +128,7 @@ fn inits() -> Vec<Vec<Action>> {
     ]
 }
 
-fn menu_cfg(p: &Params, level: u8) -> MenuCfg {
+pub fn menu_cfg(p: &Params, level: u8) -> MenuCfg {
     let b = p.base2k as u8;
     let big = p.k_max.div_ceil(p.base2k) as u8;
     let m = p.m() as i8;
@@ -403,7 +403,7 @@ impl FailCtl {
         }
     }
     /// `desc` is only built when the descriptor is going to be recorded
-    fn report(&self, rec: &mut Rec, local: &std::cell::RefCell<Local>, class: String, desc: impl FnOnce() -> Value) {
+    pub fn report(&self, rec: &mut Rec, local: &std::cell::RefCell<Local>, class: String, desc: impl FnOnce() -> Value) {
         {
             let mut l = local.borrow_mut();
             let c = l.class_counts.entry(class.clone()).or_insert(0);
@@ -425,7 +425,7 @@ impl FailCtl {
             rec.add("failures_not_recorded_same_class", 1);
         }
     }
-    fn merge_local(&self, local: Local, worst: &Mutex<BTreeMap<String, f64>>) {
+    pub fn merge_local(&self, local: Local, worst: &Mutex<BTreeMap<String, f64>>) {
         {
             let mut g = self.totals.lock().unwrap();
             for (k, v) in local.class_counts {
@@ -445,7 +445,7 @@ impl FailCtl {
     }
 }
 
-fn squash_digits(s: &str) -> String {
+pub fn squash_digits(s: &str) -> String {
     let mut out = String::new();
     let mut last_hash = false;
     for ch in s.chars() {
@@ -517,7 +517,9 @@ where
         validated: false,
     };
     let pred = predict(cx, st, act);
-    let applied = apply(cx, st, act, &pred, depth, env.seed, scr);
+    // scratch contents never matter: refill with the adversarial pattern before every call
+    scr.fill();
+    let applied = apply(cx, st, act, &pred, depth, env.seed, scr.get::<B>());
     let opname = act.name();
     let (oa, ob) = operands(act);
     let dsti = act_dst(act) as u8;
@@ -739,7 +741,7 @@ where
 // ------------------------------------------------------------------------------------------------------------
 // the search
 
-fn blank_state<B: Cb, F: Real>(cx: &Ctx<B, F>) -> State<F>
+pub fn blank_state<B: Cb, F: Real>(cx: &Ctx<B, F>) -> State<F>
 where
     Module<B>: HalAll<B> + CoreAll<B> + CkksAll<B>,
     Scratch<B>: ScratchTakeCore<B> + ScratchAvailable,
@@ -759,7 +761,7 @@ where
     }
 }
 
-fn succ_state<F: Real>(st: &State<F>, act: &Action, changed: Vec<(usize, Reg<F>)>) -> State<F> {
+pub fn succ_state<F: Real>(st: &State<F>, act: &Action, changed: Vec<(usize, Reg<F>)>) -> State<F> {
     let mut regs = st.regs.clone();
     for (i, r) in changed {
         regs[i] = Arc::new(r);
@@ -769,9 +771,9 @@ fn succ_state<F: Real>(st: &State<F>, act: &Action, changed: Vec<(usize, Reg<F>)
     State { regs, trace }
 }
 
-type Key = [RegKey; NREG];
+pub type Key = [RegKey; NREG];
 
-fn succ_key<F: Real>(st: &State<F>, changed: &[(usize, Reg<F>)]) -> Key {
+pub fn succ_key<F: Real>(st: &State<F>, changed: &[(usize, Reg<F>)]) -> Key {
     let mut k: Vec<RegKey> = (0..NREG)
         .map(|i| match changed.iter().find(|c| c.0 == i) {
             Some((_, r)) => r.key(),
